@@ -5,6 +5,8 @@ import BFL.Proofs.ExtractWindow
 import BFL.Proofs.HistoryMove
 import BFL.Proofs.ExtractMove
 import BFL.Proofs.ExtractBot
+import BFL.Proofs.HistorySpec
+import BFL.Proofs.ExtractSpec
 /-
 C17 — Estimate extraction and its sliding window return the advertised statistic.
 
@@ -496,6 +498,185 @@ theorem mode_with_zero_weights (ps : List (List ℝ)) (ws : List (WithBot ℝ)) 
       ((∃ w ∈ ws, w ≠ ⊥) → ws[i]? ≠ some ⊥) := by
   obtain ⟨i, h1, h2⟩ := modeEst_spec_bot ps ws hlen hne
   exact ⟨i, h1, h2, fun hfin => mode_not_bot ws i h2 hfin⟩
+
+/-! ## Round 4: refinement to a specification; convex hull -/
+
+section refinement
+variable {β : Type}
+
+/-- **Refinement.**  Under every operation sequence (add, clear, set / increase / decrease window) the buffer
+    shows exactly what the specification `HistSpec` shows: the `keep` most recent elements added since the last
+    `clear`, newest first, where `log` is append-only and `keep` is a counter that `add` raises up to the window
+    and a window change lowers to the new window; the counter never exceeds the log or the window. -/
+theorem buffer_refines_spec (ops : List (HistBuf.Op β)) :
+    (HistBuf.run ops).items = (HistSpec.run ops).log.take (HistSpec.run ops).keep ∧
+    (HistBuf.run ops).window = (HistSpec.run ops).window ∧
+    (HistSpec.run ops).keep ≤ (HistSpec.run ops).log.length ∧
+    (HistSpec.run ops).keep ≤ (HistSpec.run ops).window := by
+  obtain ⟨h, hi⟩ := HistSpec.abs_run ops
+  rw [← h]
+  exact ⟨rfl, rfl, hi.le_log, hi.le_win⟩
+
+/-- … also with hand-over: in every two-object program (operations on either object, move constructions, move
+    assignments, self-assignments) each object shows what its specification state shows; the moved-from object
+    is the specification's moved-from state (nothing retained, window 0), the destination carries on with the
+    source's log and counter. -/
+theorem buffer_pair_refines_spec (ops : List (HistBuf.Op2 β)) (i : Bool) :
+    ((HistBuf.run2 ops).get i).items = ((HistSpec.run2 ops).get i).log.take ((HistSpec.run2 ops).get i).keep ∧
+    ((HistBuf.run2 ops).get i).window = ((HistSpec.run2 ops).get i).window ∧
+    ((HistSpec.run2 ops).get i).keep ≤ ((HistSpec.run2 ops).get i).log.length ∧
+    ((HistSpec.run2 ops).get i).keep ≤ ((HistSpec.run2 ops).get i).window := by
+  obtain ⟨h, hi⟩ := HistSpec.absP_run2 ops
+  rw [← h, HistSpec.absP_get]
+  exact ⟨rfl, rfl, (hi i).le_log, (hi i).le_win⟩
+
+/-- **The last `min(count, window)` estimates, newest first.**  After any operation sequence `pre`, a `clear`
+    and `count = xs.length` additions, the buffer holds the last `min(count, window)` of them, newest first;
+    likewise from construction (window 5). -/
+theorem buffer_last_min_count_window (pre : List (HistBuf.Op β)) (xs : List β) :
+    let h := HistBuf.run (pre ++ [.clear] ++ xs.map .add)
+    h.window = (HistBuf.run pre).window ∧
+    h.items = xs.reverse.take (min xs.length h.window) ∧
+    (HistBuf.run (xs.map .add)).items = xs.reverse.take (min xs.length 5) := by
+  intro h
+  obtain ⟨hp, hpi⟩ := HistSpec.abs_run pre
+  have hw : (HistSpec.run pre).window = (HistBuf.run pre).window := by rw [← hp]; rfl
+  have e1 : HistSpec.run (pre ++ [.clear] ++ xs.map .add)
+      = ⟨xs.reverse ++ [], min (0 + xs.length) (HistSpec.run pre).window, (HistSpec.run pre).window⟩ := by
+    simp only [HistSpec.run, List.foldl_append, List.foldl_cons, List.foldl_nil]
+    rw [HistSpec.foldl_adds _ (by simp [HistSpec.step])]
+    simp [HistSpec.step]
+  have e2 : HistSpec.run (xs.map .add) = ⟨xs.reverse ++ [], min (0 + xs.length) 5, 5⟩ := by
+    simp only [HistSpec.run]
+    rw [HistSpec.foldl_adds _ (by simp [HistSpec.init])]
+    simp [HistSpec.init]
+  obtain ⟨h1, _⟩ := HistSpec.abs_run (pre ++ [.clear] ++ xs.map .add)
+  obtain ⟨h2, _⟩ := HistSpec.abs_run (xs.map (HistBuf.Op.add))
+  refine ⟨?_, ?_, ?_⟩
+  · show h.window = _
+    simp only [h]
+    rw [← h1, e1, ← hw]; rfl
+  · simp only [h]
+    rw [← h1, e1]
+    simp [HistSpec.abs, HistSpec.view]
+  · rw [← h2, e2]
+    simp [HistSpec.abs, HistSpec.view]
+
+/-- non-vacuity: window 3, five additions after a clear: the last three, newest first -/
+example : (HistBuf.run ([.set 3, .add 9] ++ [.clear] ++ [1, 2, 3, 4, 5].map .add) : HistBuf Nat).items = [5, 4, 3] := by
+  have h := (buffer_last_min_count_window [.set 3, .add 9] [1, 2, 3, 4, 5]).2.1
+  have hw := (buffer_last_min_count_window [HistBuf.Op.set 3, .add 9] [1, 2, 3, 4, 5]).1
+  rw [hw] at h
+  rw [h]
+  simp [HistBuf.run, HistBuf.step, HistBuf.setWindow, HistBuf.add, HistBuf.init, HistBuf.clampWindow, HistBuf.maxWindow]
+
+/-- The reading "`min(calls, window)` estimates" needs the window to be unchanged since the last `clear`: window 2,
+    three additions, window enlarged to 4, one more addition — four additions, window 4, but only three estimates
+    are (and can be) shown, because the first one was dropped while the window was 2.  The general statement is
+    `buffer_refines_spec` (the counter `keep`), the special case `buffer_last_min_count_window`. -/
+theorem min_count_window_needs_fixed_window_counterexample :
+    (HistBuf.run [.set 2, .add 1, .add 2, .add 3, .set 4, .add 4] : HistBuf Nat).items = [4, 3, 2] ∧
+    (HistBuf.run [.set 2, .add 1, .add 2, .add 3, .set 4, .add 4] : HistBuf Nat).window = 4 ∧
+    (HistBuf.run [.set 2, .add 1, .add 2, .add 3, .set 4, .add 4] : HistBuf Nat).items.length ≠ min 4 4 := by
+  simp [HistBuf.run, HistBuf.step, HistBuf.setWindow, HistBuf.add, HistBuf.init, HistBuf.clampWindow,
+    HistBuf.maxWindow]
+
+/-- Enlarging the window never brings anything back and never drops anything: when the request is at least the
+    number of stored elements the content is unchanged (the property a storage that wraps around must keep
+    when its capacity grows). -/
+theorem grow_keeps_content (ops : List (HistBuf.Op β)) (w : Nat)
+    (hw : (HistBuf.run ops).items.length ≤ HistBuf.clampWindow w) :
+    ((HistBuf.run ops).setWindow w).1.items = (HistBuf.run ops).items := by
+  have hi := HistBuf.inv_run ops
+  rw [HistBuf.setWindow_items _ _ hi.len, HistBuf.setWindow_window]
+  apply List.take_of_length_le
+  split
+  · exact hi.len
+  · exact hw
+
+end refinement
+
+/-- **The extraction object's history is a history buffer driven by its calls**: after every call sequence,
+    `hist_buffer_` is what a free-standing buffer is after the translated operations `bufOps` (a windowed
+    `extract` that produced an estimate ↦ `add` of its base estimate; a positive window request ↦ `set`;
+    `clear` ↦ `clear`; everything else ↦ nothing) — hence it shows the `keep` most recent base estimates of the
+    specification, newest first. -/
+theorem ee_history_refines_spec (eps : ℝ) (lin circ : Nat) (cs : List (Call ℝ)) :
+    let ops := bufOps eps (EE.init lin circ) cs
+    (run eps lin circ cs).hist = HistBuf.run ops ∧
+    (run eps lin circ cs).hist.items = (HistSpec.run ops).log.take (HistSpec.run ops).keep ∧
+    (run eps lin circ cs).hist.window = (HistSpec.run ops).window := by
+  intro ops
+  have h : (run eps lin circ cs).hist = HistBuf.run ops := by
+    simp only [run, ops]
+    rw [runFrom_hist]
+    rfl
+  obtain ⟨h1, h2, _⟩ := buffer_refines_spec ops
+  exact ⟨h, by rw [h, h1], by rw [h, h2]⟩
+
+/-- … and with hand-over: in every two-object program (calls on the current object, move construction, move
+    assignment, switching) the history buffer of each object is what the two-buffer machine gives for the translated
+    operations `poolBufOps`, hence what the specification pair shows — the destination of a move carries on with
+    the source's base estimates, the source retains nothing. -/
+theorem ee_pool_history_refines_spec (eps : ℝ) (lin circ : Nat) (cs : List (PoolCall ℝ)) (i : Bool) :
+    let ops := poolBufOps eps (Pool.init lin circ) cs
+    ((poolRun eps lin circ cs).get i).hist = (HistBuf.run2 ops).get i ∧
+    ((poolRun eps lin circ cs).get i).hist.items
+      = ((HistSpec.run2 ops).get i).log.take ((HistSpec.run2 ops).get i).keep ∧
+    ((poolRun eps lin circ cs).get i).hist.window = ((HistSpec.run2 ops).get i).window := by
+  intro ops
+  have h : ((poolRun eps lin circ cs).get i).hist = (HistBuf.run2 ops).get i := by
+    rw [← hists_get]
+    simp only [poolRun, ops]
+    rw [poolRun_hists]
+    rfl
+  obtain ⟨h1, h2, _⟩ := buffer_pair_refines_spec ops i
+  exact ⟨h, by rw [h, h1], by rw [h, h2]⟩
+
+/-- what a call contributes to the buffer -/
+theorem ee_buffer_ops (eps : ℝ) (s : EE ℝ) (n : Int) (a : Args ℝ) (m : Method) :
+    bufOp eps s (.setWindow n) = (if n > 0 then some (.set n.toNat) else none) ∧
+    bufOp eps s .clear = some .clear ∧ bufOp eps s (.setMethod m) = none ∧ bufOp eps s .move = none ∧
+    bufOp eps s (.extract2 a) = (pushed eps s (.extract2 a)).map .add ∧
+    bufOp eps s (.extract5 a) = (pushed eps s (.extract5 a)).map .add := ⟨rfl, rfl, rfl, rfl, rfl, rfl⟩
+
+/-- **Convex hull (linear part).**  Each linear row of a windowed estimate lies between the smallest and the
+    largest value of that row among the `k` most recent base estimates: for any bounds `lo ≤ · ≤ hi` of the
+    window, `lo ≤ estimate ≤ hi`. -/
+theorem windowed_linear_in_hull (eps : ℝ) (lin circ : Nat) (pre : List (Call ℝ)) (c : Call ℝ)
+    (b : List ℝ) (hp : pushed eps (runLog eps lin circ pre).1 c = some b) (r : Nat) (hr : r < lin) (lo hi : ℝ) :
+    let s := (runLog eps lin circ pre).1
+    let H := (b :: (runLog eps lin circ pre).2).take (min (s.hist.items.length + 1) s.hist.window)
+    (∀ h ∈ H, lo ≤ h.getD r 0 ∧ h.getD r 0 ≤ hi) →
+    ∃ est v, (step eps s c).2 = ⟨true, some est⟩ ∧ est[r]? = some v ∧ lo ≤ v ∧ v ≤ hi := by
+  intro s H hb
+  obtain ⟨f, _, _, _, hH, ha, hc, _, hout, _⟩ := windowed_is_convex_combination eps lin circ pre c b hp
+  have hlen : H.length = (famWeights f (min (s.hist.items.length + 1) s.hist.window) : List ℝ).length := by
+    rw [famWeights_length]; exact hH
+  obtain ⟨v, hv, h1, h2⟩ := meanEst_lin_in_hull lin circ H _ hlen hc r hr lo hi hb
+  exact ⟨_, v, hout, hv, h1, h2⟩
+
+/-- **Idempotence.**  When the `k` most recent base estimates agree in a row, the windowed estimate returns
+    that value: exactly for a linear row, wrapped to `(−π, π]` for a circular row. -/
+theorem windowed_constant_window (eps : ℝ) (lin circ : Nat) (pre : List (Call ℝ)) (c : Call ℝ)
+    (b : List ℝ) (hp : pushed eps (runLog eps lin circ pre).1 c = some b) (x : ℝ) :
+    let s := (runLog eps lin circ pre).1
+    let H := (b :: (runLog eps lin circ pre).2).take (min (s.hist.items.length + 1) s.hist.window)
+    ∃ est, (step eps s c).2 = ⟨true, some est⟩ ∧
+      (∀ r, r < lin → (∀ h ∈ H, h.getD r 0 = x) → est[r]? = some x) ∧
+      (∀ r, r < circ → (∀ h ∈ H, h.getD (lin + r) 0 = x) →
+        est[lin + r]? = some (Complex.arg (Complex.exp (x * Complex.I)))) := by
+  intro s H
+  obtain ⟨f, _, _, _, hH, ha, hc, _, hout, _⟩ := windowed_is_convex_combination eps lin circ pre c b hp
+  have hlen : H.length = (famWeights f (min (s.hist.items.length + 1) s.hist.window) : List ℝ).length := by
+    rw [famWeights_length]; exact hH
+  refine ⟨_, hout, ?_, ?_⟩
+  · intro r hr hx
+    obtain ⟨v, hv, h1, h2⟩ := meanEst_lin_in_hull lin circ H _ hlen hc r hr x x
+      (fun h hh => ⟨(hx h hh).ge, (hx h hh).le⟩)
+    rw [hv, le_antisymm h2 h1]
+  · intro r hr hx
+    exact meanEst_circ_const lin circ H _ hlen hc r hr x hx
 
 end C17
 end BFL
